@@ -199,7 +199,7 @@ func (m *labelModel) renderCmd(c *spec.Cmd) string {
 		case a.Moves != nil:
 			args = append(args, m.MovesLabel[a])
 		default:
-			args = append(args, strings.Join(a.Toks, " "))
+			args = append(args, strings.ReplaceAll(strings.Join(a.Toks, " "), "\x01", ""))
 		}
 	}
 	// a comma directly before the closing parenthesis is a trailing comma, not a separator: the (empty)
